@@ -90,9 +90,10 @@ theorem only_first_is_root (b : Bytes) (nodes : List Node) (h : untar b = .ok no
     localfs.go in their order, partial effects of a failing method kept).  For every archive byte
     stream, every option set and every initial file system whose destination path lies below real
     directories and is not itself a symbolic link — hostile links *inside* the destination allowed —
-    every object not at or beneath the destination is unchanged; the one exception is the
-    modification time of the destination's parent directory when the destination itself is created
-    or replaced.  This is the statement the two defects fixed by 866e492 and cf2b761 violated. -/
+    every object not at or beneath the destination is unchanged — contents, owner, mode bits,
+    extended attributes, mtime; the one exception is the modification time of the destination's
+    parent directory when the destination itself is created or replaced (its owner, mode and
+    extended attributes `a` stay).  This is the statement the two defects fixed by 866e492 and cf2b761 violated. -/
 theorem unpacking_changes_nothing_outside (o : LFS.Opts) (root : List LFS.Name) (fs : LFS.FS) (b : Bytes)
     (h : LFS.RootOK fs root) :
     ∀ p : LFS.RPath, ¬ (root <+: p) →
